@@ -500,6 +500,14 @@ def rule_printer_shape(ctx: Ctx, rule: str = "printer-folding") -> None:
     ctx.floor("printer paths", n, 4)
     # to_str_list: loop until empty, threading the rest
     fi2 = prog.func("PolyhedralTermList.to_str_list")
+    sem = _to_str_list_by_run(prog, fi2)
+    construct = "to_str_list: prints from a copy of the terms, one printer call per round, continuing with the returned rest"
+    if sem is True:
+        ctx.ok(rule, fi2.key, construct)
+        return
+    if isinstance(sem, str):
+        ctx.violation(rule, fi2.key, construct, sem, where=fi2.where)
+        return
     ps = [p for p in Sim(prog, fi2, loop_iters=(1,)).paths() if p.terminal == "return"]
     construct = "to_str_list: prints from a copy of the terms, one printer call per round, continuing with the returned rest"
     okc = bool(ps)
@@ -517,6 +525,47 @@ def rule_printer_shape(ctx: Ctx, rule: str = "printer-folding") -> None:
         if p.env.get("ts") is not None and p.env.get("ts") != ("item", calls[0]["result"], 1):
             okc = False
     (ctx.ok(rule, fi2.key, construct) if okc else ctx.violation(rule, fi2.key, construct, "unexpected loop shape", where=fi2.where))
+
+
+def _to_str_list_by_run(prog: Program, fi2: FuncInfo):
+    """to_str_list run by the kernel interpreter with the printer replaced by one that consumes the head of what it is
+    given: every term is printed once, in order, from a copy (the list itself is left alone).  True / text / None."""
+    from .termalg import DictV, Key, ListV, Raised, Rec, TermAlg, TupV, num
+    from .termalg import Undecidable as _Und
+
+    terms = [Rec("PolyhedralTerm", {"variables": DictV({Key("x%d" % k): num(1)}), "constant": num(k)}) for k in range(3)]
+    own = ListV(list(terms))
+    me = Rec("PolyhedralTermList", {"terms": own})
+    seen = {"same_object": False, "calls": 0}
+
+    def printer(ta, pos, kw):
+        arg = pos[0]
+        seen["calls"] += 1
+        if arg is own:
+            seen["same_object"] = True
+        if not isinstance(arg, ListV) or not arg.items:
+            raise Raised("IndexError")
+        head = arg.items[0]
+        k = int(head.f["constant"].as_const())
+        # like the real printer: works on the list it is given and hands back what is left of it
+        rest = ListV(list(arg.items[1:]))
+        return TupV([("str", "T%d" % k), rest])
+
+    try:
+        ta = TermAlg(prog, stubs={"serializer.polyhedral_term_list_to_strings": printer})
+        r = ta.call(fi2, [], {}, self_val=me)
+        texts = [x[1] if isinstance(x, tuple) and x and x[0] == "str" else "?" for x in ta.iterate(r, fi2.node)]
+    except Raised as ex:
+        return "raises %s on a list of three terms" % ex.cls
+    except (AnalysisError, _Und, KeyError, AttributeError):
+        return None
+    if texts != ["T0", "T1", "T2"]:
+        return "three terms are printed as %s" % texts
+    if len(own.items) != 3 or any(a is not b for a, b in zip(own.items, terms)):
+        return "the list's own terms are consumed by printing"
+    if seen["same_object"]:
+        return "the printer is handed the list's own terms, not a copy"
+    return True
 
 
 def _string_template(v) -> str:
